@@ -226,6 +226,18 @@ var bodies12 = []body12{
 		v, err := hessian.ToObject(b, tm)
 		return decRes(v, err, "")
 	}, true},
+	{"two refused encodes (int beyond int32, channel), then three encodes (own Encoder)", func(s *shared12) string {
+		e := hessian.NewEncoder(nil, s.nm)
+		_, err1 := e.Encode(int(1) << 40)
+		_, err2 := e.Encode(make(chan int))
+		var sb strings.Builder
+		fmt.Fprint(&sb, err1 != nil, err2 != nil, ";")
+		for _, v := range []interface{}{s.v2, s.long, s.vt} {
+			b, err := e.Encode(v)
+			sb.WriteString(encRes(b, err, "") + ";")
+		}
+		return sb.String()
+	}, false},
 	{"decode six values with maps of three map types, one entry each (own Decoder)", func(s *shared12) string {
 		d := hessian.NewDecoder(nil, copyTypeMap(tmpl12.mapTM))
 		var sb strings.Builder
